@@ -85,6 +85,14 @@ class Similarity(Affine):
                 "Only 2D and 3D Similarity transforms " "are currently supported."
             )
 
+    @property
+    def composes_inplace_with(self):
+        r"""
+        :class:`Similarity` can swallow composition with any other
+        :class:`Similarity`.
+        """
+        return Similarity
+
     def _as_vector(self):
         r"""
         Return the parameters of the transform as a 1D array. These parameters
